@@ -158,4 +158,108 @@ theorem stepOk_rename_replaced (hv : v.files = F1 ++ f :: F2) (hw : v.wfB = true
 
 end replace
 
+
+/-! ## removing one record -/
+
+theorem allOwned_split (F1 F2 : List FileRec) (f : FileRec) :
+    (F1 ++ f :: F2).flatMap (·.owned) = F1.flatMap (·.owned) ++ (f.owned ++ F2.flatMap (·.owned)) := by
+  simp [List.flatMap_append, List.flatMap_cons]
+
+/-- the post-volume of a removal: the record is gone, the free list is `free'` -/
+def removed (v : Vol) (F1 F2 : List FileRec) (free' : List Nat) : Vol := { v with files := F1 ++ F2, freeUnits := free' }
+
+section remove
+variable {P : FsParams} {v : Vol} {F1 F2 : List FileRec} {f : FileRec} {free' : List Nat}
+
+theorem wfB_remove (hv : v.files = F1 ++ f :: F2) (hw : v.wfB = true) (hnd : free'.Nodup)
+    (hfree : ∀ x, x ∈ free' ↔ x ∈ v.freeUnits ∨ x ∈ f.owned) : (removed v F1 F2 free').wfB = true := by
+  obtain ⟨h1, h2, h3, h4, h5, h6, h7⟩ := wfB_iff.1 hw
+  have hao : v.allOwned = F1.flatMap (·.owned) ++ (f.owned ++ F2.flatMap (·.owned)) := by
+    unfold Vol.allOwned; rw [hv]; exact allOwned_split F1 F2 f
+  have hao' : (removed v F1 F2 free').allOwned = F1.flatMap (·.owned) ++ F2.flatMap (·.owned) := by
+    unfold Vol.allOwned removed; simp [List.flatMap_append]
+  have hsub : ((removed v F1 F2 free').allOwned).Sublist v.allOwned := by
+    rw [hao, hao']
+    exact List.Sublist.append (List.Sublist.refl _) (List.sublist_append_right _ _)
+  have hmem : ∀ u ∈ (removed v F1 F2 free').allOwned, u ∈ v.allOwned := fun u hu => hsub.subset hu
+  have hndo : v.allOwned.Nodup := (List.nodup_append.1 h2).1
+  have hdisj : ∀ u ∈ (removed v F1 F2 free').allOwned, u ∉ f.owned := by
+    intro u hu hf
+    rw [hao] at hndo
+    rw [hao'] at hu
+    have hn1 := List.nodup_append.1 hndo
+    have hn2 := List.nodup_append.1 hn1.2.1
+    rcases List.mem_append.1 hu with hu | hu
+    · exact hn1.2.2 u hu u (List.mem_append_left _ hf) rfl
+    · exact hn2.2.2 u hf u hu rfl
+  have hfo : ∀ u ∈ f.owned, u ∈ v.allOwned := by
+    intro u hu; rw [hao]; exact List.mem_append_right _ (List.mem_append_left _ hu)
+  rw [wfB_iff]
+  refine ⟨fun u hu => h1 u (hmem u hu), ?_, ?_, ?_, ⟨hnd, ?_⟩, ?_, ?_⟩
+  · exact (List.Sublist.append hsub (List.Sublist.refl v.sys)).nodup h2
+  · intro u hu hf
+    rcases (hfree u).1 hf with h | h
+    · exact h3 u (hmem u hu) h
+    · exact hdisj u hu h
+  · intro u hu hf
+    rcases (hfree u).1 hf with h | h
+    · exact h4 u hu h
+    · exact (List.nodup_append.1 h2).2.2 u (hfo u h) u hu rfl
+  · intro u hu
+    rcases (hfree u).1 hu with h | h
+    · exact h5.2 u h
+    · exact h1 u (hfo u h)
+  · show ((F1 ++ F2).map (·.path)).Nodup
+    rw [hv, paths_split] at h6
+    rw [List.map_append]
+    exact (List.Sublist.append (List.Sublist.refl _) (List.sublist_cons_self _ _)).nodup h6
+  · intro x hx
+    have hx' : x ∈ F1 ++ F2 := hx
+    apply h7 x
+    rw [hv]
+    rcases List.mem_append.1 hx' with h | h
+    · exact List.mem_append_left _ h
+    · exact List.mem_append_right _ (List.mem_cons_of_mem _ h)
+
+theorem stepOk_delete_removed (hv : v.files = F1 ++ f :: F2) (hw : v.wfB = true) (hnd : free'.Nodup)
+    (hfree : ∀ x, x ∈ free' ↔ x ∈ v.freeUnits ∨ x ∈ f.owned) (hl : f.locked = false) :
+    stepOk P v (.delete f.path) true (removed v F1 F2 free') = true := by
+  have hw' := wfB_remove hv hw hnd hfree
+  have nd := wfB_paths_nodup hw
+  have h1 := lookup_mid hv nd
+  unfold Vol.paths at nd
+  rw [hv, paths_split] at nd
+  have hn1 := List.nodup_append.1 nd
+  have hn2 := List.nodup_cons.1 hn1.2.1
+  have hgone : (removed v F1 F2 free').lookup f.path = none := by
+    apply not_mem_paths_iff.1
+    intro hm
+    change f.path ∈ (F1 ++ F2).map (·.path) at hm
+    rw [List.map_append] at hm
+    rcases List.mem_append.1 hm with hm | hm
+    · exact hn1.2.2 _ hm _ List.mem_cons_self rfl
+    · exact hn2.1 hm
+  have hwo : without v.files [f.path] = F1 ++ F2 := by
+    rw [hv]
+    unfold without
+    rw [List.filter_append, List.filter_cons]
+    have e1 : F1.filter (fun g => !([f.path] : List Bytes).contains g.path) = F1 := by
+      rw [List.filter_eq_self]
+      intro g hg
+      have : g.path ≠ f.path := fun e => hn1.2.2 _ (List.mem_map_of_mem hg) _ List.mem_cons_self e
+      simpa using this
+    have e2 : F2.filter (fun g => !([f.path] : List Bytes).contains g.path) = F2 := by
+      rw [List.filter_eq_self]
+      intro g hg
+      have : g.path ≠ f.path := fun e => hn2.1 (e ▸ List.mem_map_of_mem hg)
+      simpa using this
+    rw [e1, e2]
+    simp
+  have h3 : sameFiles (without v.files [f.path]) (removed v F1 F2 free').files = true := by
+    rw [hwo]
+    exact sameFiles_refl (wfB_paths_nodup hw')
+  simp [stepOk, stepConds, hw', h1, hgone, h3, hl]
+
+end remove
+
 end A2Verif.FsDos
